@@ -458,3 +458,43 @@ def _tv(st):
     if isinstance(st, ast.AnnAssign):
         return st.target, st.value
     return None, None
+
+
+def u9_absent_maximum_bounds_nothing(ctx) -> None:
+    """CartesianProduct.reliance_profile: the sizes / statistic values a child can take range
+    from its minimum to min(what the siblings' minima leave, its own maximum *if it has
+    one*).  `max_child_sizes` has no entry for an unbounded child; a made-up default
+    (`.get(k, n)`) bounds a statistic that may well exceed the size."""
+    P = ctx.P
+    m = P.need_method("CartesianProduct", "reliance_profile", own=True)
+    f = m.node
+    ctx.analysed(m)
+    # the name bound to an element of self.max_child_sizes
+    mx = None
+    for n in ast.walk(f):
+        if isinstance(n, (ast.comprehension, ast.For)) and isinstance(n.iter, ast.Call) and norm(n.iter.func) == "zip":
+            args = [norm(a) for a in n.iter.args]
+            if "self.max_child_sizes" in args and isinstance(n.target, ast.Tuple):
+                mx = norm(n.target.elts[args.index("self.max_child_sizes")])
+    if mx is None:
+        raise AnalysisError("U9: reliance_profile no longer walks self.max_child_sizes next to self.min_child_sizes")
+    n_use = 0
+    for n in ast.walk(f):
+        if isinstance(n, ast.Subscript) and norm(n.value) == mx:
+            n_use += 1
+            k = norm(n.slice)
+            gs = {(norm(e), p) for e, p in C.flatten_guards(C.guards(f, n))}
+            if (f"{k} in {mx}", True) in gs:
+                ctx.ok("U9", f"the child's maximum bounds the range only where it exists (`{k} in {mx}`)")
+            else:
+                ctx.violation("U9", n, f"`{norm(n)}` is read without `{k} in {mx}`: a child without a maximum has no entry")
+        elif isinstance(n, ast.Call) and isinstance(n.func, ast.Attribute) and n.func.attr == "get" and norm(n.func.value) == mx:
+            n_use += 1
+            d = norm(n.args[1]) if len(n.args) > 1 else "None"
+            if d in ("float('inf')", "math.inf", "inf", "sys.maxsize"):
+                ctx.ok("U9", "an absent maximum is read as unbounded")
+            else:
+                ctx.violation("U9", n, f"`{norm(n)}` gives a child without a maximum the bound `{d}`: it has none (a statistic may exceed the size), so values the child can take "
+                              "are left out of the profile and the objects that need them are never sampled")
+    if n_use < 1:
+        ctx.violation("U9", f, "reliance_profile no longer takes the children's maxima into account", construct="CartesianProduct.reliance_profile maxima")
